@@ -200,6 +200,24 @@ check('C15', 'exploration',
       TB, 'deviation-bounded exhaustive enumeration of iterator/mutation interleavings over a BFS state space',
       'E3', 'DESIGN.md §4 C15')
 
+check('C05', 'exploration',
+      'Every container lives in a data manager with a real persistent.PickleCache; the oracle is an uncached '
+      'twin of the same class and history. Part A (all 22 families, 4 kinds, both implementations): for every '
+      'reachable shape x every operation of a ~150-entry catalogue (lookups, range searches, iterators and '
+      'lazy sequences with a sweep between any two steps, every mutator, set algebra with a second stored '
+      'container, failing calls with unconvertible key/value, missing key, unusable bound, wrong-typed update '
+      'item, bad operand, unusable node-size attribute) x ghost set at operation start in {none, all, each '
+      'single node}. Part B (object-keyed families, instrumented keys, C under AddressSanitizer): a full cache '
+      'sweep inside key comparison n for EVERY n the operation performs (pairs n1<n2 on the smaller space), '
+      'and comparison n raising. After every execution: result / exception class / contents / shape equal the '
+      'twin, no node is left STICKY, a final sweep ghostifies every unchanged node, commit + fresh reader '
+      'agree with the twin.',
+      TB + ' vt.minidb stands in for ZODB. In-operation sweeps are placed at key comparisons (the only place '
+      'foreign code runs inside a C operation on a GIL build).',
+      'exhaustive enumeration of eviction schedules (ghost sets at operation start; sweep position among the '
+      'key comparisons of an operation, deviation bound 1-2) over a BFS state space, differential oracle',
+      'E3+E4', 'DESIGN.md §4 C05')
+
 PENDING = ['C%02d' % i for i in range(1, 20)]
 
 
